@@ -35,7 +35,10 @@ class Gen:
         k = rnd.random()
         self.twins = k >= 0.7
         self.vars = VARS if k < 0.7 else rnd.choice([['x0', 'X0', 'a', 'A', 'x1'], ['n', 'N', 'x0', 'i', 'I'],
-                                                     ['x', 'x1', 'x10', 'x01', 'xx'], ['a', 'aa', 'A', 'aA', 'x0']])
+                                                     ['x', 'x1', 'x10', 'x01', 'xx'], ['a', 'aa', 'A', 'aA', 'x0'],
+                                                     # identifiers that merely START like a keyword or like a generated name
+                                                     ['Loops', 'loop_i', 'Ends', 'x0', 'Stop1'], ['WhileX', 'Do_', 'If0', 'a', 'Then_1'],
+                                                     ['LoopVariable', 'Temporary', 'Variable', 'x0', 'RUNNER'], ['Programs', 'Inx', 'Outer', 'Withal', 'x1']])
 
     def num(self):
         r = self.r
@@ -636,6 +639,26 @@ def redef_marks_program(rnd):
             ['assign', 'x2', ('call', 'f', [('num', rnd.randint(1, 3))])]]
     if rnd.random() < 0.5:
         main = [['label', 'm0'], ['assign', 'x0', ('inc', 'x0', 1)], ['if', 'x0', 2, 'e0'], ['goto', 'm0'], ['label', 'e0']] + main
+    return number(defs, main)
+
+
+def taillabel_program(rnd):
+    """a label at the very END of a body whose statement produces little or no code (self-assignment, +0, STOP),
+    optionally right behind a STOP / GOTO, with jumps to it from before — in the main script or in a called program"""
+    v = rnd.choice(['x0', 'x1', 'a'])
+    tail = rnd.choice([['assign', v, ('var', v)], ['assign', v, ('var', v)], ['assign', v, ('inc', v, 0)], ['stop'],
+                       ['assign', v, ('num', 1)], ['assign', 'x2', ('var', v)]])
+    before = rnd.choice([[['stop']], [['stop']], [['goto', 'fin']], [], [['assign', 'x2', ('num', 7)]]])
+    jump = rnd.choice([[['goto', 'fin']], [['if', 'x0', 0, 'fin']], [['if', v, rnd.randint(0, 2), 'fin'], ['assign', v, ('num', 7)]]])
+    filler = [['assign', rnd.choice(['x1', 'x2', 'b']), ('num', rnd.randint(0, 5))] for _ in range(rnd.randint(0, 2))]
+    body = jump + filler + before + [['label', 'fin'], tail]
+    if rnd.random() < 0.4:
+        defs = [('t', ['a'], rnd.choice([None, 'a', 'x1']), body)]
+        main = [['assign', 'x1', ('call', 't', [('num', rnd.randint(0, 2))])], ['assign', 'b', ('inc', 'x1', 1)]]
+        if rnd.random() < 0.5:
+            main += [['goto', 'fin'], ['assign', 'b', ('num', 9)], ['stop'], ['label', 'fin'], ['assign', 'b', ('var', 'b')]]
+    else:
+        defs, main = [], body
     return number(defs, main)
 
 
